@@ -68,13 +68,11 @@ def outputs_of(res):
 def child(pkl, outp, timeout=240):
     e = dict(os.environ)
     e["PYTHONHASHSEED"] = "1"
-    try:
-        p = subprocess.run([env.PY, "-m", "vp.c29child", str(pkl), str(outp)], cwd=str(env.VERIF), env=e,
-                           capture_output=True, timeout=timeout)
-    except subprocess.TimeoutExpired:
+    rc, _, err = env.run_group([env.PY, "-m", "vp.c29child", str(pkl), str(outp)], timeout, cwd=str(env.VERIF), env=e)
+    if rc == "timeout":
         raise env.HarnessError("child timeout")
     if not os.path.exists(outp):
-        raise env.HarnessError("child wrote nothing: " + p.stderr.decode(errors="replace")[-300:])
+        raise env.HarnessError("child wrote nothing: " + err.decode(errors="replace")[-300:])
     return json.loads(open(outp).read())
 
 
